@@ -4,6 +4,7 @@ import (
 	"bytes"
 	"fmt"
 	"sort"
+	"strings"
 	"testing"
 
 	"verifharness/gen"
@@ -83,6 +84,29 @@ func (c07) Gen(seed uint64, idx int, tier string) *Scenario {
 		src = p.Src
 	} else {
 		src, p, _ = genInput(r, class, tier)
+	}
+	if r.Chance(1, 60) || (tier == "thorough" && r.Chance(1, 15)) {
+		// one lexical unit larger than any plausible cap: a string, a comment line, a run of blanks, an identifier
+		n := prng.Pick(r, []int{4096, 4097, 8192, 65535, 65536, 65537, 70000})
+		unit := prng.Pick(r, []string{"str", "comment", "blanks", "ident"})
+		var big string
+		switch unit {
+		case "str":
+			big = "print \"" + strings.Repeat("s", n) + "\"\n"
+		case "comment":
+			big = "#" + strings.Repeat("c", n) + "\n"
+		case "blanks":
+			big = strings.Repeat(" ", n) + "\n"
+		default:
+			big = "var " + strings.Repeat("i", n) + " = 1\n"
+		}
+		at := 0
+		if i := bytes.IndexByte(src, '\n'); i >= 0 && r.Chance(1, 2) {
+			at = i + 1
+		}
+		src = append(append(append([]byte{}, src[:at]...), big...), src[at:]...)
+		p = nil
+		sc.Class = class + "+big-" + unit
 	}
 	sc.Src = src
 	sc.Name = prng.Pick(r, []string{"f.bcl", "", "dir/x.bcl"})
